@@ -136,6 +136,8 @@ class SymEval:
                 return r
             if isinstance(base, tuple) and base[0] == "tuple" and e[2].isdigit():
                 return base[1][int(e[2])]
+            if isinstance(base, tuple) and base[0] == "struct" and e[2] in base[2]:
+                return base[2][e[2]]
             self.fail("field", e)
         if k == "index":
             base = self.ev(e[1], env)
@@ -197,6 +199,8 @@ class SymEval:
                 if p is not None and p in env:
                     env[p] = v
                     return UNIT
+                if e[1][0] == "field" and self.set_place(e[1], v, env) is not NotImplemented:
+                    return UNIT
                 if e[1][0] == "index" and path_of(e[1][1]) in env and isinstance(env[path_of(e[1][1])], tuple) and env[path_of(e[1][1])][0] == "list":
                     i = self.ev(e[1][2], env)
                     items = list(env[path_of(e[1][1])][1])
@@ -243,7 +247,14 @@ class SymEval:
                 return self.apply(env[p], [self.ev(a, env) for a in e[2]])
             if p.split("::")[-1] in ("panic_fmt", "panic", "begin_panic", "panic_display", "unreachable_display", "panic_explicit", "assert_failed"):
                 raise Panic(p.split("::")[-1])
+            if p.endswith("mem::replace") and len(e[2]) == 2:
+                new = self.ev(e[2][1], env)
+                old = self.set_place(e[2][0], new, env)
+                if old is NotImplemented:
+                    self.fail("mem::replace of an unknown place", e)
+                return old
             args = [self.ev(a, env) for a in e[2]]
+            self.cur_env = env
             if p == "Some" and len(args) == 1:
                 return ("some", args[0])
             if p == "Ok" and len(args) == 1:
@@ -260,6 +271,10 @@ class SymEval:
                 return args[0]
             if p in ("String::new", "::alloc::string::String::new", "std::string::String::new"):
                 return ("fmt", [])
+            if p in ("Vec::new", "::alloc::vec::Vec::new", "std::vec::Vec::new", "vec::Vec::new") and not args:
+                return ("list", [])
+            if p.endswith("Vec::with_capacity") and len(args) == 1:
+                return ("list", [])
             if "::" in p and p.split("::")[-1][:1].isupper():
                 return ("enum", "::".join(p.split("::")[-2:]), args)
             fn = self.h.resolve_fn(p)
@@ -383,6 +398,24 @@ class SymEval:
             return ("struct", e[1].split("::")[-1], {fl: self.ev(x, env) for fl, x in e[2]})
         self.fail("unrecognised expression", e)
 
+    def set_place(self, place, v, env):
+        """assign to a local or to a (nested) field of a local struct value; returns the old value or NotImplemented"""
+        place = unblock(place)
+        while place[0] == "ref" or (place[0] == "unary" and place[1] == "*"):
+            place = place[2]
+        p = path_of(place)
+        if p is not None and p in env:
+            old = env[p]
+            env[p] = v
+            return old
+        if place[0] == "field":
+            base = self.ev(place[1], env)
+            if isinstance(base, tuple) and base[0] == "struct" and place[2] in base[2]:
+                old = base[2][place[2]]
+                base[2][place[2]] = v
+                return old
+        return NotImplemented
+
     def concrete(self, v):
         if isinstance(v, (int, bool)):
             return True
@@ -439,6 +472,11 @@ class SymEval:
                 for x in items:
                     self.apply(args[0], [x])
                 return UNIT
+            if m == "collect" and items and all(isinstance(x, tuple) and x and x[0] in ("ok", "err") for x in items):
+                errs = [x for x in items if x[0] == "err"]
+                return errs[0] if errs else ("ok", ("list", [x[1] for x in items]))
+            if m == "step_by" and len(args) == 1 and isinstance(args[0], int) and args[0] > 0:
+                return ("list", items[::args[0]])
             if m in ("iter", "iter_mut", "into_iter", "collect", "as_slice", "to_vec", "cloned", "copied", "as_ref", "peekable", "by_ref", "fuse"):
                 return recv
             if m == "peek" and not args:
@@ -485,6 +523,9 @@ class SymEval:
                 return ("join", items, args[0])
             if m == "len":
                 return len(items)
+            if m == "contains" and len(args) == 1:
+                if self.concrete(args[0]) or True:
+                    return args[0] in items
             if m == "is_empty":
                 return not items
             if m == "first":
